@@ -9,6 +9,8 @@ mod rulealpha;
 mod rule;
 mod rulecons;
 mod find;
+mod leap;
+mod zonecons;
 
 use common::*;
 
@@ -35,6 +37,8 @@ fn main() {
             "rule" => rule::replay(&v["case"], &args),
             "rulecons" => rulecons::replay(&v["case"], &args),
             "find" => find::replay(&v["case"], &args),
+            "leap" => leap::replay(&v["case"], &args),
+            "zonecons" => zonecons::replay(&v["case"], &args),
             _ => {
                 eprintln!("no replay for engine {}", args.engine);
                 2
@@ -50,6 +54,8 @@ fn main() {
             "rule" => rule::run(&args),
             "rulecons" => rulecons::run(&args),
             "find" => find::run(&args),
+            "leap" => leap::run(&args),
+            "zonecons" => zonecons::run(&args),
             e => {
                 eprintln!("unknown engine {e}");
                 2
